@@ -282,15 +282,20 @@ Definition a_key_rule (kd : akind) (x : hr) (hist : list (aop * aout)) (k : key)
   | None => AOk
   end.
 
+(** What a load must return: the latest accepted proposal / prevote / precommit of the round
+    and the key of the latest accepted vote ([None] when nothing was accepted). *)
+Definition mk_view (x : hr) (hist : list (aop * aout)) : ra :=
+  mkra (fst x) (snd x)
+       (match a_ph x hist with Some p => p | None => ph_zero end)
+       (match a_vote_key x hist with Some k => k | None => None end)
+       (match a_pv x hist with Some (_, t, _) => t | None => [] end)
+       (match a_pv x hist with Some (_, _, s) => s | None => [] end)
+       (match a_pc x hist with Some (_, t, _) => t | None => [] end)
+       (match a_pc x hist with Some (_, _, s) => s | None => [] end).
 Definition a_view (x : hr) (hist : list (aop * aout)) : option ra :=
-  match filter (a_ok_at x) hist with
+  match a_keys x hist with
   | [] => None
-  | _ =>
-      let p := match a_ph x hist with Some p => p | None => ph_zero end in
-      let k := match a_vote_key x hist with Some k => k | None => None end in
-      let '(pvt, pvs) := match a_pv x hist with Some (_, t, s) => (t, s) | None => ([], []) end in
-      let '(pct, pcs) := match a_pc x hist with Some (_, t, s) => (t, s) | None => ([], []) end in
-      Some (mkra (fst x) (snd x) p k pvt pvs pct pcs)
+  | _ :: _ => Some (mk_view x hist)
   end.
 
 Definition a_expected (hist : list (aop * aout)) (o : aop) : aout :=
